@@ -123,7 +123,13 @@ fn main() {
             gen_derive::derive_cases(&table, &mut emit);
         }
         "meta" => {
-            let table = gen_std::table();
+            // built-in corpus + every type of the derive corpus (user types declare Identity = Self)
+            let mut table = gen_std::table();
+            for e in gen_derive::table() {
+                if !table.iter().any(|x| x.1 == e.1) {
+                    table.push(e);
+                }
+            }
             let mut k = 0u64;
             for i in 0..table.len() {
                 let info_i = table[i].0.type_info();
